@@ -82,6 +82,9 @@ func (r *binaryReaderReader) Len() int64 {
 	return r.size
 }
 
+// maxConsecutiveEmptyReads is the number of successive reads of zero bytes without an error after which a reader is given up on.
+const maxConsecutiveEmptyReads = 100
+
 func (r *binaryReaderReader) Bytes(b []byte, n, off int64) ([]byte, error) {
 	if off != r.pos {
 		return nil, errors.New("reader: does not implement io.Seeker or io.ReaderAt")
@@ -91,7 +94,7 @@ func (r *binaryReaderReader) Bytes(b []byte, n, off int64) ([]byte, error) {
 		b = make([]byte, n)
 	}
 
-	for i := 0; i < int(n); {
+	for i, empty := 0, 0; i < int(n); {
 		m, err := r.r.Read(b[i:])
 		r.pos += int64(m)
 		i += m
@@ -99,8 +102,10 @@ func (r *binaryReaderReader) Bytes(b []byte, n, off int64) ([]byte, error) {
 			break // EOF may be delivered together with the last bytes
 		} else if err != nil {
 			return b[:i], err
-		} else if m == 0 {
-			return b[:i], errors.New("reader: could not read all bytes")
+		} else if 0 < m {
+			empty = 0
+		} else if empty++; maxConsecutiveEmptyReads <= empty {
+			return b[:i], io.ErrNoProgress // io.Reader allows a read of zero bytes with a nil error
 		}
 	}
 	return b, nil
@@ -141,7 +146,7 @@ func (r *binaryReaderSeeker) Bytes(b []byte, n, off int64) ([]byte, error) {
 		r.mu.Unlock()
 		return nil, err
 	}
-	for i := 0; i < int(n); {
+	for i, empty := 0, 0; i < int(n); {
 		m, err := r.r.Read(b[i:])
 		i += m
 		if err == io.EOF && i == int(n) {
@@ -149,9 +154,11 @@ func (r *binaryReaderSeeker) Bytes(b []byte, n, off int64) ([]byte, error) {
 		} else if err != nil {
 			r.mu.Unlock()
 			return b[:i], err
-		} else if m == 0 {
+		} else if 0 < m {
+			empty = 0
+		} else if empty++; maxConsecutiveEmptyReads <= empty {
 			r.mu.Unlock()
-			return b[:i], errors.New("reader: could not read all bytes")
+			return b[:i], io.ErrNoProgress // io.Reader allows a read of zero bytes with a nil error
 		}
 	}
 	r.mu.Unlock()
